@@ -44,6 +44,16 @@ def structured_forests(rng, n, c):
     if mode == 3:
         f = gen.random_forest(rng, n)
         return [f, f, f], "identical trees"
+    if mode == 4 and (c // 6) % 2 == 1 and n >= 4:
+        # one topology recorded several times (its two or three outliers stored in whatever order the moves left them,
+        # different scores) against a rival with other clades and the same outliers
+        outs = [int(x) for x in rng.permutation(n)[: 2 + int(n > 4 and rng.random() < 0.5)]]
+        rest = [i for i in idx if i not in outs]
+        base = gen.random_forest(rng, len(rest))
+        f = gen.AForest([[rest[j] for j in b] for b in base.blocks], base.parent, outs)
+        order = [rest[j] for j in rng.permutation(len(rest))]
+        g = gen.AForest([[x] for x in order], [None] + list(range(len(order) - 1)), outs)
+        return [f, f, f, g, g], "one topology with permuted outlier lists and different scores against a rival"
     if mode == 4:
         return [gen.random_forest(rng, n, p_outlier=0.2) for _ in range(5)], "random mixture with outliers"
     fs = [gen.random_forest(rng, n) for _ in range(2)]
@@ -120,6 +130,8 @@ def consensus_task(task):
                 e = one[0]["trace"][0]
                 if c % 5 == 4:
                     e["log_p_one"] = float(np.round(rng.normal() * 2 - 10, 2))  # synthetic scores: one may dominate
+                if "permuted outlier lists" in label:
+                    e["log_p_one"] = float(rng.normal() * 1.5 - 10)
                 results[i % n_chains]["trace"].append(e)
             results = {ch: r for ch, r in results.items() if r["trace"] or ch == 0}
             if not results[0]["trace"]:
